@@ -826,7 +826,7 @@ def general_histories(rng, tier, n_hist=None, steps=None):
         ubal = pick_scale(rng)
         h = Hist(4, 2, 2, 4, ubal, 1000, [rng.choice([6, 18]), rng.choice([6, 8])], "random", proxies=(hi // 2) % 2)
         kinds = [(("n", 0), ("n", 1)), (("n", 0), ("t", 2)), (("t", 2), ("t", 3))]
-        if rng.random() < 0.5:
+        if rng.random() < 0.5 and hi != 0:        # the first history always has the funded-but-unprovisioned pair below
             kinds.append((("n", 1), ("t", 3)))
         if hi % 2 == 0 and len(kinds) == 3:
             # a pair that nobody has provisioned yet (LP supply 0) but that already holds both assets, sent to it
@@ -880,6 +880,22 @@ def general_histories(rng, tier, n_hist=None, steps=None):
                     if h.bank(u_, off[1]) >= amt and h.bank(u_, third[0]) >= extra:
                         quote = h.query("sim %d %s %d" % (q_, a_line(off), amt))
                         h.do(("swap", q_, u_, sorted([(off[1], amt), (third[0], extra)]), off, amt, None, None, None), quote)
+        # directed: a direct swap that attaches LESS of the offered coin than it declares, and a hook swap that names LESS than
+        # the tokens sent with it (a sizeable difference: a few units leave every amount unchanged on deep pools); both quoted
+        for q_ in h.pairs()[:3]:
+            if h.reserves(q_)[0] == 0 or h.reserves(q_)[1] == 0:
+                continue
+            for off in h.pair_assets(q_):
+                u_ = USER0 + 2
+                amt = max(2, h.reserves(q_)[h.pair_assets(q_).index(off)] // 10)
+                if h.abal(off, u_) < amt:
+                    continue
+                quote = h.query("sim %d %s %d" % (q_, a_line(off), amt))
+                if off[0] == "n":
+                    h.do(("swap", q_, u_, [(off[1], amt // 2)], off, amt, None, None, None), quote)
+                    h.do(("swap", q_, u_, [(off[1], amt - 1)], off, amt, None, None, None), quote)
+                else:
+                    h.do(("send", off[1], u_, q_, amt, ("hswap", off, amt // 2, None, None, None)), quote)
         for _ in range(steps):
             u = rng.choice(h.users())
             pairs = h.pairs()
@@ -1233,10 +1249,20 @@ def first_provision_matrix(rng, tier):
     for rep in range({"quick": 1, "thorough": 4}[tier]):
         h = Hist(4, 2, 2, 4, 10 ** 12, 1000, [6, 18], "directed-matrix", "first provision matrix")
         wl_user, other_wl, outsider, outsider2 = USER0 + 1, USER0, USER0 + 2, USER0 + 3
-        m0, m1 = rng.choice([(1000, 2000), (1, 1), (0, 0), (5000, 10)])
-        created = setup_pairs(h, rng, kinds, whitelist=[other_wl, wl_user], mins=(m0, m1), comm=3 * 10 ** 15, provide=False)
+        # every world has all four settings of the first-provision minimums, one per pair, rotating with the world (they used
+        # to be drawn per world: with seed 1 no pair allowed tiny first deposits and C05-agent13 went unseen)
+        mins_list = [(1000, 2000), (1, 1), (0, 0), (5000, 10)]
+        rng.choice(mins_list)          # (keeps the stream of later draws where it was)
+        created, mins_of = [], {}
+        for i, kind in enumerate(kinds):
+            mm = mins_list[(i + rep) % 4]
+            new_ = setup_pairs(h, rng, [kind], whitelist=[other_wl, wl_user], mins=mm, comm=3 * 10 ** 15, provide=False, native_decs=[6, 6])
+            for q_ in new_:
+                mins_of[q_] = mm
+            created += new_
         for i, p in enumerate(created):
             a0, a1 = h.pair_assets(p)
+            m0, m1 = mins_of[p]
             good = (max(m0, 1000) * 3, max(m1, 1000) * 5)      # sizeable whatever the minimums, so that later shares are not zero
             def prov(c, n0, n1, rcv):
                 return h.do(("provide", p, c, funds_for([(a0, n0), (a1, n1)]), a0, n0, a1, n1, None, rcv))
@@ -1687,6 +1713,18 @@ def registry_histories(rng, tier, big=False):
                 h.do(("fac_update_config", owner, None, rng.choice([8, 4, 12])))
             if rng.random() < 0.15 and h.pairs():
                 h.do(("fac_migrate", owner, rng.choice(h.pairs()), rng.choice([0, 1, 2])))
+        # directed: a creation naming a native denom, that denom registered again with OTHER decimals, then the very next
+        # creation naming it in the same slot with another partner (C16-agent15: decimals memoised from the previous request)
+        free = [(a, b) for (a, b) in allp if h.pair_for(a, b) is None and a[0] == "n"]
+        if n == 1:          # only in the smallest registry: the others keep their sizes around the page limits
+            for x in sorted({a for a, _ in free}):
+                two = [ab for ab in free if ab[0] == x][:2]
+                if len(two) == 2:
+                    h.do(("fac_create_pair", owner, two[0][0], two[0][1], [USER0], 0, 0, None, None))
+                    cur = h.snap[h.off_fac + 1 + x[1]] - 1
+                    h.do(("fac_add_native", owner, x[1], cur + 3 if cur + 3 <= 18 else cur - 3))
+                    h.do(("fac_create_pair", owner, two[1][0], two[1][1], [USER0], 0, 0, None, None))
+                    break
         for L_ in (None, 1, 3, 30, 40):
             h.query("walk %s" % o_line(L_))
         # a code roll-out and an explicit migration before the final registrations, whatever the random choices were
